@@ -29,6 +29,7 @@ func factsMore(x *extractor) {
 	x.factsResults()
 	x.factsLife()
 	x.factsLifeRelease()
+	x.factsSock()
 }
 
 const netceptorGo = "pkg/netceptor/netceptor.go"
@@ -1901,4 +1902,115 @@ func (x *extractor) factsLifeRelease() {
 		rel = strings.Join(parts, ";")
 	}
 	x.set("life_release", rel)
+}
+
+// ---------------------------------------------------------------- C17: sockets
+
+func (x *extractor) factsSock() {
+	const nc, pcf, cn = "pkg/netceptor/netceptor.go", "pkg/netceptor/packetconn.go", "pkg/netceptor/conn.go"
+	// hand-off: what a deliverer does when it sees the socket's context cancelled
+	handoff := "unknown"
+	if fd := x.fn(nc, "Netceptor", "handleMessageData"); fd != nil {
+		ast.Inspect(fd.Body, func(n ast.Node) bool {
+			if cc, ok := n.(*ast.CommClause); ok && cc.Comm != nil && x.str(cc.Comm) == "<-pc.context.Done()" {
+				var parts []string
+				for _, s := range cc.Body {
+					parts = append(parts, x.str(s))
+				}
+				handoff = strings.Join(parts, ";")
+			}
+			return true
+		})
+	}
+	x.set("sock_handoff_on_cancel", handoff)
+	// ReadFrom: every branch watches the context
+	rf := "unknown"
+	if fd := x.fn(pcf, "PacketConn", "ReadFrom"); fd != nil {
+		var sels []string
+		ast.Inspect(fd.Body, func(n ast.Node) bool {
+			if ss, ok := n.(*ast.SelectStmt); ok {
+				var cs []string
+				for _, c := range ss.Body.List {
+					cc := c.(*ast.CommClause)
+					if cc.Comm != nil {
+						cs = append(cs, x.str(cc.Comm))
+					}
+				}
+				sels = append(sels, strings.Join(cs, "|"))
+			}
+			return true
+		})
+		rf = strings.Join(sels, ";")
+	}
+	x.set("sock_readfrom_selects", rf)
+	// withdrawal of an advertisement: is the table entry checked before it is used?
+	adChecked := false
+	if fd := x.fn(nc, "Netceptor", "RemoveLocalServiceAdvertisement"); fd != nil {
+		b := x.str(fd.Body)
+		adChecked = !strings.Contains(b, "n[service].ConnType") && strings.Contains(b, "present && ad != nil")
+	}
+	x.set("sock_ad_remove_checked", adChecked)
+	// Close: unbind, cancel, withdraw
+	cl := "unknown"
+	if fd := x.fn(pcf, "PacketConn", "Close"); fd != nil {
+		var parts []string
+		for _, s := range fd.Body.List {
+			t := x.str(s)
+			switch {
+			case strings.HasSuffix(t, "GetListenerLock().Lock()"):
+				parts = append(parts, "Lock")
+			case strings.HasPrefix(t, "defer ") && strings.HasSuffix(t, "Unlock()"):
+				parts = append(parts, "defer-Unlock")
+			case strings.HasPrefix(t, "delete(pc.s.GetListenerRegistry(), pc.localService)"):
+				parts = append(parts, "unbind")
+			case strings.Contains(t, "pc.cancel()"):
+				parts = append(parts, "cancel")
+			case strings.Contains(t, "RemoveLocalServiceAdvertisement"):
+				parts = append(parts, "advertise:withdraw")
+			case strings.HasPrefix(t, "return "):
+				parts = append(parts, t)
+			}
+		}
+		cl = strings.Join(parts, ";")
+	}
+	x.set("sock_close", cl)
+	// the clean-up goroutine of a successful dial: the cases it waits for, and whether it closes the socket afterwards
+	dial := "unknown"
+	if fd := x.fn(cn, "Netceptor", "DialContext"); fd != nil {
+		ast.Inspect(fd.Body, func(n ast.Node) bool {
+			gs, ok := n.(*ast.GoStmt)
+			if !ok {
+				return true
+			}
+			fl, ok := gs.Call.Fun.(*ast.FuncLit)
+			if !ok || !strings.Contains(x.str(fl.Body), "qc.Context().Done()") {
+				return true
+			}
+			var cs []string
+			ast.Inspect(fl.Body, func(m ast.Node) bool {
+				if cc, ok := m.(*ast.CommClause); ok && cc.Comm != nil {
+					d := x.str(cc.Comm)
+					for _, s := range cc.Body {
+						if _, isRet := s.(*ast.ReturnStmt); isRet {
+							d += ":return"
+						}
+					}
+					cs = append(cs, d)
+				}
+				return true
+			})
+			after := ""
+			for _, s := range fl.Body.List {
+				if es, ok := s.(*ast.ExprStmt); ok {
+					after += ";" + x.str(es)
+				}
+				if as, ok := s.(*ast.AssignStmt); ok {
+					after += ";" + x.str(as)
+				}
+			}
+			dial = strings.Join(cs, "|") + after
+			return false
+		})
+	}
+	x.set("sock_dial_cleanup", dial)
 }
